@@ -11,7 +11,7 @@ ASAN_OPTS = ("detect_leaks=0:abort_on_error=0:max_allocation_size_mb=2048:hard_r
              "allocator_may_return_null=0:handle_abort=1:detect_stack_use_after_return=0")
 UBSAN_OPTS = "print_stacktrace=1"
 
-FRAME_RE = re.compile(r"#\d+ 0x[0-9a-f]+ in (.+?) (/\S*/src/[A-Za-z0-9_]+\.(?:cc|hh)):(\d+)")
+FRAME_RE = re.compile(r"#\d+ 0x[0-9a-f]+ in (.+?) ((?:/\S*/)?src/[A-Za-z0-9_]+\.(?:cc|hh)):(\d+)")
 # undefined behaviour that is no memory error, abort, hang or allocation: reported as an observation, not as a violation
 UB_BENIGN_RE = re.compile(r"runtime error: (load of value \d+, which is not a valid value for type|signed integer overflow|"
                           r"left shift of|shift exponent|negation of|unsigned integer overflow)")
